@@ -76,6 +76,13 @@ CLAIMED["C14"] = dict(
     technique="deviation-bounded stateless schedule exploration of concurrent requests on the instrumented implementation (differential against solo runs) + free-running race-detector pass",
     design_ref="§4 C14")
 
+CLAIMED["C19"] = dict(
+    category="model_checking", engine="vsched",
+    text="keto's real oplConfigWatcher, NamespaceWatcher (JSON/YAML/TOML) and event loop, instrumented by tools/vinstr (profile config: sync/RWMutex with Go's writer preference, select, channels) run under the cooperative scheduler. A dispatcher thread feeds EVERY history of length <=3 (thorough 4) over {change f1 to V1/V2/syntactically bad/type-incorrect, remove f1, change f2 to W1/bad}; a reader thread takes two samples (Namespaces + GetNamespaceByName) and, for OPL, a reload thread calls ShouldReload; ALL interleavings up to deviation bound 2 are explored. Oracle per sample and per file: the visible namespaces of the file are exactly one valid version of it dispatched so far (never a subset, a mix or an invalid one); at quiescence every file shows its last valid version; no deadlock.",
+    note="File-system notification (watcherx/fsnotify) is replaced by the dispatcher; for OPL targets 'eventually' is judged only when the last version of every file is valid (one bad file blocks all updates by design).",
+    technique="stateless model checking: exhaustive event-history enumeration x deviation-bounded schedule exploration of the instrumented implementation",
+    design_ref="§4 C19")
+
 NOT_YET = "check not built yet in this revision (work in progress; see DESIGN.md §4 for the planned model-checking design)"
 
 
